@@ -11,7 +11,7 @@ export SEEDTAG=$TAG CARGO_BUILD_JOBS=${CARGO_BUILD_JOBS:-6}
 if [ ! -d /tmp/mirror-$TAG ]; then
   git -C /repo worktree add --detach /tmp/wt-$TAG HEAD >/dev/null 2>&1
   tools/mkmirror.sh /tmp/wt-$TAG /tmp/mirror-$TAG >/dev/null
-  cp -r "$V/harness/target" /tmp/mirror-$TAG/target 2>/dev/null   # third-party dependencies are reused
+  cp -a "$V/harness/target" /tmp/mirror-$TAG/target 2>/dev/null   # third-party dependencies are reused
 fi
 tools/seedtest.sh "$OUT/patch.diff" "$ID" "$TIER"
 (cd /tmp/mirror-$TAG && cargo build --offline -p hjs 2>&1 | tail -1)
